@@ -1,19 +1,16 @@
 import HydroVerif.Proto
-import HydroVerif.Model.C10
+import HydroVerif.Model.C10Entry
 open HydroVerif HydroVerif.C10
 
 /-- stable merge sort driven by the tolerant comparator of c_dscore.c (eps = 1e-8 there) -/
 def sortPool (l : List (Float × Nat)) : List (Float × Nat) := l.mergeSort (leTol (1e-8 : Float))
 
-/-- `np.sort` on finite data -/
-def sortF (l : List Float) : List Float := l.mergeSort (fun a b => decide (a ≤ b))
-def sortQ (l : List Rat) : List Rat := l.mergeSort (fun a b => decide (a ≤ b))
+/-- `np.sort` on finite data: the model's `sortAsc` -/
+def sortF (l : List Float) : List Float := sortAsc l
+def sortQ (l : List Rat) : List Rat := sortAsc l
 
-/-- the comparator of c_andersondarling.c: 1 if a>b, 0 if a==b, -1 if a<b, else 0 -/
-def sortAD (l : List (Option Float)) : List (Option Float) :=
-  l.mergeSort fun a b => match a, b with
-    | some x, some y => !decide (y < x)
-    | _, _ => true
+/-- the `qsort` of `c_ad_test`: the model's `sortADm` (comparator of c_andersondarling.c) -/
+def sortAD (l : List (Option Float)) : List (Option Float) := sortADm l
 
 def optNaN (x : Float) : Option Float := if x.isNaN then none else some x
 
@@ -25,6 +22,60 @@ def fmtMatF (rows : List (List Float)) : String :=
   "[" ++ ";".intercalate (rows.map fun r => ",".intercalate (r.map hexOfFloat)) ++ "]"
 
 def epsMin : Float := 1e-20
+
+def kindTok? (s : String) : Option PctKind :=
+  if s = "rank" then some .rank else if s = "weak" then some .weak else if s = "strict" then some .strict
+  else if s = "mean" then some .mean else none
+
+def fmtEnsErr : EnsErr → String
+  | .lengthMismatch => "lengthMismatch"
+  | .noValidData => "noValidData"
+  | .obsNotOneD => "obsNotOneD"
+
+/-- layout token `vec`, `scalar` or `mat:<ncol>`, then the data (list / one-element list / matrix; NaN = missing) -/
+def arrTok? (lay data : String) : Option (ArrIn (Option Float)) :=
+  if lay = "vec" then (parseFloatList? data).map fun l => .vec (l.map optNaN)
+  else if lay = "scalar" then
+    match parseFloatList? data with
+    | some [a] => some (.scalar (optNaN a))
+    | _ => none
+  else match lay.splitOn ":" with
+    | ["mat", c] =>
+      match c.toNat?, parseFloatMat? data with
+      | some c, some rows => some (.mat c (rows.map fun r => r.map optNaN))
+      | _, _ => none
+    | _ => none
+
+def simTok? (lay data : String) : Option (SimIn Float) :=
+  if lay = "vec" then (parseFloatList? data).map .vec
+  else match lay.splitOn ":" with
+    | ["mat", c] =>
+      match c.toNat?, parseFloatMat? data with
+      | some c, some rows => some (.mat c rows)
+      | _, _ => none
+    | _ => none
+
+/-- operations of a buffer history: `call <eps> <ncol> <mat>`, `scr <k> <fval> <rval>` (the caller replaces its buffers
+by k x k / k arrays filled with the two values) -/
+def parseOps? : List String → Option (List (BufOp Float))
+  | [] => some []
+  | "call" :: eps :: ncol :: mat :: rest =>
+    match floatTok? eps, ncol.toNat?, parseFloatMat? mat, parseOps? rest with
+    | some eps, some ncol, some rows, some ops => some (.call eps ncol rows :: ops)
+    | _, _, _, _ => none
+  | "scr" :: k :: fv :: rv :: rest =>
+    match k.toNat?, floatTok? fv, floatTok? rv, parseOps? rest with
+    | some k, some fv, some rv, some ops =>
+      some (.scribble (List.replicate k (List.replicate k fv)) (List.replicate k rv) :: ops)
+    | _, _, _, _ => none
+  | _ => none
+
+def fmtReply : BufReply Float → String
+  | .done => "done"
+  | .assertion => "assert"
+  | .code .evalue => "code:evalue"
+  | .code .esize => "code:esize"
+  | .ok up rk => "ok:" ++ fmtMatF up ++ ":" ++ fmtFloatList rk
 
 def handle (toks : List String) : String :=
   match toks with
@@ -102,8 +153,7 @@ def handle (toks : List String) : String :=
     | some obs, some ens =>
       match checkEnsemble (obs.map optNaN) (ens.map fun r => r.map optNaN) with
       | .ok k => "ok " ++ fmtFloatList (k.map (·.1)) ++ " " ++ toString k.length
-      | .error .lengthMismatch => "err lengthMismatch"
-      | .error .noValidData => "err noValidData"
+      | .error e => "err " ++ fmtEnsErr e
     | _, _ => "bad-op"
   | ["cvmpg", n, stat] =>
     match n.toNat?, floatTok? stat with
@@ -112,6 +162,58 @@ def handle (toks : List String) : String :=
   | ["cvmidx", n, sizes] =>
     match n.toNat?, parseNatList? sizes with
     | some n, some sizes => match closestIdx n sizes with | some i => s!"some {i}" | none => "none"
+    | _, _ => "bad-op"
+  | ["pitkind", kind, obs, ens] =>
+    match kindTok? kind, floatTok? obs, parseFloatList? ens with
+    | some k, some obs, some ens => hexOfFloat (pitKind k obs ens)
+    | _, _, _ => "bad-op"
+  | ["pitfr", cst, cnt, nens] =>
+    match floatTok? cst, cnt.toNat?, nens.toNat? with
+    | some cst, some cnt, some nens => hexOfFloat (pitFormulaR id (clampCst cst) cnt nens)
+    | _, _, _ => "bad-op"
+  | ["sudor", eps, censor, obs, ens] =>
+    match floatTok? eps, floatTok? censor, floatTok? obs, parseFloatList? ens with
+    | some eps, some censor, some obs, some ens => toString (isSudoR id eps censor obs ens)
+    | _, _, _, _ => "bad-op"
+  | ["pitentry", random, kind, cst, censor, olay, obs, elay, ens, dobs, dens] =>
+    match kindTok? kind, floatTok? cst, floatTok? censor, arrTok? olay obs, arrTok? elay ens, parseFloatList? dobs,
+      parseFloatMat? dens with
+    | some k, some cst, some censor, some obs, some ens, some dobs, some dens =>
+      match pitEntry (random = "1") k (1e-10 : Float) cst censor obs ens dobs dens with
+      | .ok r => "ok " ++ fmtList (r.map fun q => fmtOptFloat q.1) ++ " " ++ fmtList (r.map fun q => toString q.2)
+      | .error e => "err " ++ fmtEnsErr e
+    | _, _, _, _, _, _, _ => "bad-op"
+  | ["alphaentry", typ, olay, obs, elay, ens, dobs, dens] =>
+    match arrTok? olay obs, arrTok? elay ens, parseFloatList? dobs, parseFloatMat? dens with
+    | some obs, some ens, some dobs, some dens =>
+      let t : AlphaType := if typ = "CV" then .cv else if typ = "AD" then .ad else if typ = "KS" then .ks else .other
+      -- `ks` (scipy) is external: the statistic and p-value of type KS are not compared
+      match alphaEntry sortF sortAD (fun _ => (0, 0)) t (1e-10 : Float) (-1e-300 : Float) (0.3 : Float) obs ens dobs dens with
+      | .ok (st, pv, flags) => "ok " ++ hexOfFloat st ++ " " ++ fmtOptFloat pv ++ " " ++ fmtList (flags.map toString)
+      | .error (.ens e) => "err " ++ fmtEnsErr e
+      | .error .badType => "err badType"
+      | .error (.adTest _) => "err adTest"
+    | _, _, _, _ => "bad-op"
+  | ["dscoreentry", eps, obs, slay, sim] =>
+    match floatTok? eps, parseFloatList? obs, simTok? slay sim with
+    | some eps, some obs, some sim =>
+      match dscoreEntry sortPool epsMin eps obs sim with
+      | .ok d => "ok " ++ fmtO d
+      | .error .lengthMismatch => "err lengthMismatch"
+    | _, _, _ => "bad-op"
+  | ["dscoref", eps, ncol, obs, mat] =>
+    match floatTok? eps, ncol.toNat?, parseFloatList? obs, parseFloatMat? mat with
+    | some eps, some ncol, some obs, some rows =>
+      fmtO (dscoreOfFin ((stableRanks obs).map fun (r : Nat) => (Nat.cast r : Float)) (franksOf sortPool epsMin eps ncol rows))
+    | _, _, _, _ => "bad-op"
+  | "bufrun" :: n :: opsToks =>
+    match n.toNat?, parseOps? opsToks with
+    | some n, some ops =>
+      let b0 : Bufs Float := ⟨List.replicate n (List.replicate n 0), List.replicate n 0⟩
+      let r := bufRun sortPool epsMin b0 ops
+      let rep := "|".intercalate (r.2.map fmtReply)
+      let fresh := "|".intercalate (ops.map fun op => fmtReply (replyOf sortPool epsMin op))
+      rep ++ " final " ++ fmtMatF r.1.fmat ++ " " ++ fmtFloatList r.1.ranks ++ (if rep = fresh then " hf=1" else " hf=0")
     | _, _ => "bad-op"
   | _ => "bad-op"
 
